@@ -98,9 +98,10 @@ def observe_scaled(fx, np, props, t, modes, scale, bias, us, route='ctor', scala
                 x.reset()
                 x.set_val(obj)
             return x
+        allint = all(v.denominator == 1 for v in vs)
         if scalar:
-            for v in vs:
-                x = one(float(v))
+            for j, v in enumerate(vs):
+                x = one(int(v) if (v.denominator == 1 and j % 2 == 0) else float(v))       # Python int / float carriers
                 c = common.codes_of(x)
                 fl = common.flags_of(x)
                 cs.append(wint(c[0])); rbs.append(wdy(float(np.asarray(x.get_val(), dtype=float).ravel()[0])))
@@ -108,7 +109,14 @@ def observe_scaled(fx, np, props, t, modes, scale, bias, us, route='ctor', scala
                 lims = [wdy(float(x.upper)), wdy(float(x.lower)), wdy(float(x.precision))]
                 zs = fmt_of(x)
         else:
-            x = one(np.array([float(v) for v in vs]))
+            if allint and len(vs) % 3 == 0:
+                x = one([int(v) for v in vs])                    # Python list of ints
+            elif allint and len(vs) % 3 == 1:
+                x = one(np.array([int(v) for v in vs], dtype=np.int64))
+            elif len(vs) % 2 == 0:
+                x = one([int(v) if v.denominator == 1 else float(v) for v in vs])
+            else:
+                x = one(np.array([float(v) for v in vs]))
             fl = common.flags_of(x)
             cs = [wint(c) for c in common.codes_of(x)]
             rbs = [wdy(b) for b in np.asarray(x.get_val(), dtype=float).ravel().tolist()]
